@@ -73,20 +73,14 @@ impl EventSource for SocketPeek<'_> {
         let io_data = (*self.io_data).clone();
 
         #[cfg(feature = "io_timeout")]
-        let deadline = self.timeout.map(|dur| {
+        if let Some(dur) = self.timeout {
             crate::scheduler::get_scheduler()
                 .get_selector()
-                .add_io_timer(self.io_data, dur)
-        });
+                .add_io_timer(self.io_data, dur);
+        }
 
         io_data.co.store(co);
         // till here the io may be done in other thread
-
-        // the timer may have fired before the coroutine was stored
-        #[cfg(feature = "io_timeout")]
-        if io_data.timed_out_while_arming(deadline) {
-            return;
-        }
 
         // there is event, re-run the coroutine
         if io_data.io_flag.load(Ordering::Acquire) != 0 {
